@@ -1,1 +1,3 @@
-#[cfg(any(not(verif_select), verif_gi))] #[path = "/verif/harness/ntp_proto/gi_probe_keyset.rs"] pub(crate) mod gi;
+#[cfg(any(not(verif_select), verif_gi))]
+#[path = "/verif/harness/ntp_proto/gi_probe_keyset.rs"]
+pub(crate) mod gi;
